@@ -355,7 +355,7 @@ def do_check(pid, tier, seed):
               ' '.join('%s=%d' % kv for kv in sorted(r.stats.items())[:8]), '  (INCOMPLETE: budget)' if r.incomplete else ''), flush=True)
     # vacuity guards
     for g in chk.get('nonzero', []):
-        if total_stats.get(g, 0) == 0 and maxes.get(g, 0) == 0 and not errors and not violations:
+        if total_stats.get(g, 0) == 0 and maxes.get(g, 0) == 0 and not errors and not violations and not incomplete:
             errors.append('vacuity guard: counter %r is zero' % g)
     # violations -> replay files; known findings
     real, knownhits = [], []
